@@ -1,8 +1,12 @@
 import Driver.Proto
+import Driver.C14
+import Driver.C14Mon
 import Driver.C16
 import Driver.C16Mon
 
 def suites : List (String × Driver.Suite) :=
+  Driver.C14.suites ++
+  Driver.C14Mon.suites ++
   Driver.C16.suites ++
   Driver.C16Mon.suites
 
